@@ -421,20 +421,15 @@ impl<'a> From<Piece<'a>> for Chunk {
                     }
 
                     let timezone = match formatter.args.get(1) {
-                        Some(arg) => {
-                            if let Some(arg) = arg.first() {
-                                match *arg {
-                                    Piece::Text("utc") => Timezone::Utc,
-                                    Piece::Text("local") => Timezone::Local,
-                                    Piece::Text(z) => {
-                                        return Chunk::Error(format!("invalid timezone `{}`", z));
-                                    }
-                                    _ => return Chunk::Error("invalid timezone".to_owned()),
-                                }
-                            } else {
-                                return Chunk::Error("invalid timezone".to_owned());
+                        // the whole argument has to be the zone name, not just its first piece
+                        Some(arg) => match arg.as_slice() {
+                            [Piece::Text("utc")] => Timezone::Utc,
+                            [Piece::Text("local")] => Timezone::Local,
+                            [Piece::Text(z)] => {
+                                return Chunk::Error(format!("invalid timezone `{}`", z));
                             }
-                        }
+                            _ => return Chunk::Error("invalid timezone".to_owned()),
+                        },
                         None => Timezone::Local,
                     };
 
